@@ -576,6 +576,58 @@ func genMisc(r *rng, nthreads, nops int) phase {
 	return ph
 }
 
+// keys whose deadline has passed when the concurrent part starts: every command first runs into
+// CheckTTL's expired path (which takes the key's write lock itself)
+func genExpiry(r *rng, nthreads, nops int) phase {
+	p := &keyPool{prefix: "ex", nlocks: 2 * shardNum}
+	keys := p.colliding(2)
+	keys = append(keys, p.spread(2)...)
+	ph := phase{name: "expiry", keys: keys}
+	for i, k := range keys {
+		if i%2 == 0 {
+			ph.setup = append(ph.setup, command{"SET", k, "5"})
+		} else {
+			ph.setup = append(ph.setup, command{"RPUSH", k, "a", "b"})
+		}
+	}
+	// EXPIRE k 1 issued late in a second: the key counts as expired from the next second boundary
+	// on, the timer goroutine of SetTTL removes it only a whole second after the EXPIRE; the
+	// concurrent part runs in between, so the commands themselves find the expired key
+	ph.setup = append(ph.setup, command{"@ALIGN", "850"})
+	for _, k := range keys {
+		ph.setup = append(ph.setup, command{"EXPIRE", k, "1"})
+	}
+	ph.setup = append(ph.setup, command{"@NEXTSEC", "30"})
+	for t := 0; t < nthreads; t++ {
+		ops := []command{}
+		for i := 0; i < nops; i++ {
+			k := r.pick(keys)
+			switch r.intn(10) {
+			case 0, 1:
+				ops = append(ops, command{"GET", k})
+			case 2:
+				ops = append(ops, command{"INCR", k})
+			case 3:
+				ops = append(ops, command{"EXISTS", k, r.pick(keys)})
+			case 4:
+				ops = append(ops, command{"SETNX", k, fmt.Sprintf("x%d.%d", t, i)})
+			case 5:
+				ops = append(ops, command{"TTL", k})
+			case 6:
+				ops = append(ops, command{"LPOP", k})
+			case 7:
+				ops = append(ops, command{"RENAME", k, r.pick(keys)})
+			case 8:
+				ops = append(ops, command{"MGET", k, r.pick(keys)})
+			default:
+				ops = append(ops, command{"TYPE", k})
+			}
+		}
+		ph.threads = append(ph.threads, ops)
+	}
+	return ph
+}
+
 // ---------------------------------------------------------------- running a phase
 
 type record struct {
@@ -661,6 +713,24 @@ func runPhase(ph phase, outdir string, tcp bool) (status string, err error) {
 			sec: now.Unix(), ms: now.UnixMilli(), args: c, reply: out, gid: memdb.VerifGoID()})
 	}
 	for i, c := range ph.setup {
+		if c[0][0] == '@' {
+			ms, _ := strconv.Atoi(c[1])
+			now := time.Now()
+			frac := now.Nanosecond() / 1e6
+			switch c[0] {
+			case "@SLEEP":
+				time.Sleep(time.Duration(ms) * time.Millisecond)
+			case "@ALIGN": // wait until the millisecond-of-second is in [ms, ms+60)
+				if frac < ms {
+					time.Sleep(time.Duration(ms-frac) * time.Millisecond)
+				} else if frac >= ms+60 {
+					time.Sleep(time.Duration(1000-frac+ms) * time.Millisecond)
+				}
+			case "@NEXTSEC": // the next second boundary plus ms
+				time.Sleep(time.Duration(1000-frac+ms) * time.Millisecond)
+			}
+			continue
+		}
 		runOne(-1, len(ph.threads), i, c)
 	}
 	var wg sync.WaitGroup
@@ -792,7 +862,9 @@ func screenPhase(ph phase, outdir string, skip map[string]bool) map[string]strin
 		}
 	}
 	for _, c := range ph.setup {
-		run(c)
+		if c[0][0] != '@' {
+			run(c)
+		}
 	}
 	for i := 0; ; i++ {
 		any := false
@@ -961,6 +1033,17 @@ func concCmd(args []string) error {
 	if v, err := strconv.Atoi(os.Getenv("VERIF_CONC_OPS")); err == nil && v > 0 {
 		nops = v
 	}
+	// focused stress (a translator obligation named these executors): many more commands, mostly
+	// the named ones
+	focus := map[string]bool{}
+	for _, n := range strings.Split(os.Getenv("VERIF_CONC_FOCUS"), ",") {
+		if n != "" {
+			focus[strings.ToLower(n)] = true
+		}
+	}
+	if len(focus) > 0 {
+		nops *= 10
+	}
 	r := newRng(seed)
 	phases := []phase{
 		genCounter(r, nth, nops),
@@ -971,6 +1054,7 @@ func concCmd(args []string) error {
 		genConserve(r, nth, nops),
 		genBook(r, nth, nops*3),
 		genMisc(r, nth, nops),
+		genExpiry(r, nth, nops/2),
 	}
 	sf, err := os.Create(filepath.Join(outdir, "status.txt"))
 	if err != nil {
@@ -999,11 +1083,29 @@ func concCmd(args []string) error {
 		for t := range ph.threads {
 			kept := ph.threads[t][:0]
 			for _, c := range ph.threads[t] {
-				if !skip[strings.ToLower(c[0])] {
-					kept = append(kept, c)
+				name := strings.ToLower(c[0])
+				if skip[name] {
+					continue
 				}
+				if len(focus) > 0 && !focus[name] && !r.chance(1, 3) {
+					continue
+				}
+				kept = append(kept, c)
 			}
 			ph.threads[t] = kept
+		}
+		if len(focus) > 0 {
+			has := false
+			for t := range ph.threads {
+				for _, c := range ph.threads[t] {
+					if focus[strings.ToLower(c[0])] {
+						has = true
+					}
+				}
+			}
+			if !has {
+				continue
+			}
 		}
 		ph.yield = 3
 		ph.watchdog = 40 * time.Second
